@@ -32,6 +32,15 @@ def exact_window(n, fs, a, b):
     return bool(ok)
 
 
+def inexact_direction(n, fs, a, b):
+    """'below' when for some limit int(fs * (s / fs)) != s (the product falls a hair below s and truncates to s - 1), else 'above'
+    (the product is a hair above s: truncation still gives s, but comparisons with sample indices equal to s go the other way)."""
+    for v in ((a if a is not None else 0), (b if b is not None else n)):
+        if int(fs * (v / fs)) != v:
+            return 'below'
+    return 'above'
+
+
 def table_rows(df, cols):
     roles = record.PEAK_ROLES if 'sample_peak' in df.columns else record.TROUGH_ROLES
     order = ['lastzx', 'last', 'zx1', 'centre', 'zx2', 'next']
@@ -162,8 +171,12 @@ def record_plot(op, df, sig, fs, thr, a, b, flags):
                         case['markers']['centre']['on_grid'] = False
                 if flags.get('only_result', False):
                     pcols = []
+                # which panel shows which parameter: by the panel's own label when the labels name the parameters one-to-one (the order of
+                # the panels is presentation), otherwise by position in the order of the thresholds dictionary
+                labs = [a_.get_ylabel().split('\n')[0].strip().lower().replace(' ', '_') for a_ in axes[1:1 + len(pcols)]]
+                by_label = {l_: a_ for l_, a_ in zip(labs, axes[1:1 + len(pcols)])} if sorted(labs) == sorted(pcols) and len(set(labs)) == len(labs) else None
                 for pi_, col in enumerate(pcols):
-                    axp = axes[pi_ + 1]
+                    axp = by_label[col] if by_label else axes[pi_ + 1]
                     par_l, thr_l = panel_lines(axp, thr[col + '_threshold'])
                     pl, tl = ([par_l] if par_l is not None else []), ([thr_l] if thr_l is not None else [])
                     xs, okg = to_samples(pl[0].get_xdata(orig=True), fs, tfull) if pl else ([], False)
